@@ -45,7 +45,7 @@ pub struct Hist {
 pub fn hist() -> impl Strategy<Value = Hist> {
     let spec = prop_oneof![
         3 => c14::pair().prop_map(|p| ProgSpec::Gen(Box::new(p))),
-        6 => (0u8..13, 0u8..4, any::<u16>()).prop_map(|(f, r, v)| ProgSpec::Shared(f, r, v)),
+        6 => (0u8..14, 0u8..4, any::<u16>()).prop_map(|(f, r, v)| ProgSpec::Shared(f, r, v)),
         1 => c11::raw_tree().prop_map(|mut t| { t.missing = None; t.main_symlink = false; ProgSpec::Tree(t) }),
     ];
     let op = prop_oneof![
@@ -65,7 +65,7 @@ pub enum Prog {
 /// The same shared name gets a different meaning in every role.
 pub fn shared_program(name: &str, family: u8, role: u8, v: u16) -> String {
     let v = v as u32 % 60000;
-    match (family % 13, role % 4) {
+    match (family % 14, role % 4) {
         (0, 0) => format!(".equ {} = {}\n.dw {}", name, v, name),
         (0, 1) => format!(".equ {} = {}\nldi r16, low({})", name.to_uppercase(), v + 1, name),
         (0, _) => format!(".dw {}", name),
@@ -125,6 +125,13 @@ pub fn shared_program(name: &str, family: u8, role: u8, v: u16) -> String {
         (12, 1) => format!(".org pc + {}\n{}: nop\n.dw {}", 1 + v % 50, name, name),
         (12, 2) => format!("nop\n.if pc > {}\n.dw 1\n.else\n.dw 2\n.endif\n.set {} = pc\n.dw {}\n.equ {}_e = pc + 1\n.dw {}_e", v % 3, name, name, name, name),
         (12, _) => format!(".macro {}\n.org pc + 4\n.dw pc\n.endm\n.dseg\n.byte pc + {}\n{}_d: .byte 1\n.cseg\n{}\n.dw {}_d\n.if pc\n.dw 7\n.endif", name, v % 9, name, name, name),
+        // one macro name called with the same argument texts in every role, but with another body; two
+        // of the roles fail in the middle of the expansion pass, after that call has been expanded:
+        // whatever an expansion leaves behind must not reach the next build
+        (13, 0) => format!(".macro {}\nldi r16, @0\n.endm\n{} 1\n{}_undefined 5", name, name, name),
+        (13, 1) => format!(".macro {}\nldi r16, @0+1\n.endm\n{} 1", name, name),
+        (13, 2) => format!(".macro {}\nldi r17, @0\nnop\n.endm\n{} 1\n{}", name, name, name),
+        (13, _) => format!(".macro {}\n.dw @0, {}\n.endm\n{} 1", name, v, name),
         (_, _) => "nop".to_string(),
     }
 }
